@@ -73,10 +73,12 @@ def configs(tier, seed):
     S = lambda kv, *body: {"scope": list(kv), "body": list(body)}
     for prog in ([S(("i", 0), S(("c", "ch"), S(("i", 0), A(0)), A(1)), A(2))],
                  [S(("c", "a"), S(("c", "b"), S(("c", "a"), A(0)), A(1))), A(2)],
-                 [S(("i", 1), S(("i", 1), A(0)), A(1), S(("i", 1), S(("i", 0), A(2))))]):
+                 [S(("i", 1), S(("i", 1), A(0)), A(1), S(("i", 1), S(("i", 0), A(2))))],
+                 [S(("i", 0), A(0)), S(("c", "0"), A(1)), A(2)]):
         for aw, dw, g in ((4, 8, 8), (5, 32, 8)):
             out.append({"aw": aw, "dw": dw, "g": g, "late": False, "prog": prog,
-                        "adds": [{"w": w, "off": False, "scope": 0, "name": f"r{i}", "bad_first": None}
+                        "adds": [{"w": w, "off": False, "scope": 0, "name": "ctrl" if prog[0]["body"] == [A(0)] and i < 2 else f"r{i}",
+                                  "bad_first": None}
                                  for i, w in enumerate((dw, 1, 2 * dw + 1))]})
     return out
 
@@ -184,6 +186,23 @@ def harness_for(cfg):
             mm = b.as_memory_map()
         except ValueError:
             E.observe("build-refused")
+            # a refusal needs a reason: some register out of bounds, two overlapping, or two colliding names - under
+            # the documented placement (explicit: offset * granularity / data_width; implicit: first size-aligned
+            # address at or after the previously added register)
+            conds, placed_m, cursor = [], [], 0
+            for r, o, nm in zip(regs, offs, names):
+                size = _pow2_ceil((r.element.width + dw - 1) // dw)
+                s_ = (o // ratio) if o is not None else (cursor + size - 1) // size * size
+                e_ = s_ + size
+                conds.append(e_ <= top)
+                for ps, pe in placed_m:
+                    conds.append(b_or(e_ <= ps, pe <= s_))
+                placed_m.append((s_, e_))
+                cursor = e_
+            for x, y in itertools.combinations(names, 2):
+                k = min(len(x), len(y))
+                conds.append(x[:k] != y[:k])
+            E.prove(b_not(b_and(*conds)) if conds else False, "a legal layout was refused by as_memory_map()")
             # asking again must refuse again, not hand out a half-built map
             try:
                 b.as_memory_map()
